@@ -35,7 +35,7 @@ RULE = ('random build programs: 1-4 qubits, 2-9 commands per circuit, measuremen
         'DeclarativeCircuit (repetition 1-3) nested with add() up to two levels; outer repetition 1-3; 25% of programs with explicit relations; '
         '50% read all indices before apply_modifiers(), 15% also list a sub-circuit before nesting it; 8% malformed (a measurement attached to an '
         'unrelated circuit); plus a few repetition-code library circuits.  All indices are read after apply_modifiers().  non-trivial: well-formed, >= 3 listed measurements and (>= 2 measured '
-        'qubits interleaved, or a repeated tag, or a nested / unrolled block); distinct by hash of the program')
+        'qubits interleaved, or a repeated tag, or a nested / unrolled block); distinct by hash of the program' ' Some measurements are created with tags that are members of a (str, Enum) class (equal to, but not printed as, their plain-string values); queries use the plain string.')
 LEVEL_TEXT = ('Coq theorems over all listings with pairwise distinct identifiers: the two-counter scan returns (number of same-qubit measurements '
               'before, number of measurements before); circuit-level indices are exactly 0..N-1 and per-qubit indices 0..n_q-1 in listing order; '
               'the by-qubit / by-(qubit, tag) getters return exactly the per-qubit indices of the matching measurements; tags partition a qubit\'s '
